@@ -57,7 +57,7 @@ type boundInfo struct {
 type state struct {
 	h        map[string]string
 	epoch    int
-	havocked string // SMT Bool: a havoc-everything happened on the path to here
+	havocked string    // SMT Bool: a havoc-everything happened on the path to here
 	param    *[]string // non-nil: heap reads become parameters of a recursive spec function
 	// a state that joins paths of different epochs resolves heaps it has not materialised yet through its parents
 	mconds []string
@@ -99,14 +99,14 @@ type Obligation struct {
 }
 
 type loopInfo struct {
-	header  *ssa.BasicBlock
-	ordinal int
-	blocks  map[*ssa.BasicBlock]bool
-	modKeys map[string]bool
-	modAll  bool
-	headSt  *state // state right after havoc at the header (for loop-frame obligations)
-	preSt   *state // merged state on entry, before havoc
-	phiSyms map[*ssa.Phi]*sym
+	header   *ssa.BasicBlock
+	ordinal  int
+	blocks   map[*ssa.BasicBlock]bool
+	modKeys  map[string]bool
+	modAll   bool
+	headSt   *state // state right after havoc at the header (for loop-frame obligations)
+	preSt    *state // merged state on entry, before havoc
+	phiSyms  map[*ssa.Phi]*sym
 	rangeIdx *ssa.Phi
 	backs    []backRec
 	closed   bool
@@ -126,26 +126,26 @@ type deferRec struct {
 }
 
 type FnVC struct {
-	w        *World
-	fn       *ssa.Function
-	c        *Contract
-	cmds     []string
-	n        int
-	obls     []*Obligation
-	declared map[string]bool
-	fnName   string // package-relative name for obligation naming
-	pkgPath  string
-	mode     string // "verify"
-	unsup    []string
-	callOrd  map[string]int
-	sitesHit map[*Clause]int
+	w         *World
+	fn        *ssa.Function
+	c         *Contract
+	cmds      []string
+	n         int
+	obls      []*Obligation
+	declared  map[string]bool
+	fnName    string // package-relative name for obligation naming
+	pkgPath   string
+	mode      string // "verify"
+	unsup     []string
+	callOrd   map[string]int
+	sitesHit  map[*Clause]int
 	callsSeen map[string]int
-	depth    int
-	entrySt  *state
-	safety   bool
-	relyDef  *SpecDef
-	obNames  map[string]int
-	recs     map[string]*recInfo
+	depth     int
+	entrySt   *state
+	safety    bool
+	relyDef   *SpecDef
+	obNames   map[string]int
+	recs      map[string]*recInfo
 }
 
 type recInfo struct {
@@ -156,25 +156,25 @@ type recInfo struct {
 }
 
 type frame struct {
-	vc      *FnVC
-	fn      *ssa.Function
-	vals    map[ssa.Value]*sym
-	reach   map[*ssa.BasicBlock]string
-	out     map[*ssa.BasicBlock]*state
-	edge    map[[2]int]string
-	loops   map[*ssa.BasicBlock]*loopInfo
-	defers  []*deferRec
-	rets    []retRec
-	names   map[string]*sym // source-level names (params, named results, free vars)
-	c       *Contract       // contract under verification (top frame only)
-	inlined bool
-	prefix  string
-	oldSt   *state
-	rangeSt map[*ssa.Range]*rangeRec
-	callPos map[string][]token.Pos
-	curOrd  int
-	curBlock *ssa.BasicBlock
-	curIdx   int
+	vc                *FnVC
+	fn                *ssa.Function
+	vals              map[ssa.Value]*sym
+	reach             map[*ssa.BasicBlock]string
+	out               map[*ssa.BasicBlock]*state
+	edge              map[[2]int]string
+	loops             map[*ssa.BasicBlock]*loopInfo
+	defers            []*deferRec
+	rets              []retRec
+	names             map[string]*sym // source-level names (params, named results, free vars)
+	c                 *Contract       // contract under verification (top frame only)
+	inlined           bool
+	prefix            string
+	oldSt             *state
+	rangeSt           map[*ssa.Range]*rangeRec
+	callPos           map[string][]token.Pos
+	curOrd            int
+	curBlock          *ssa.BasicBlock
+	curIdx            int
 	lastFuncSetResult *sym
 }
 
@@ -185,6 +185,7 @@ type rangeRec struct {
 }
 
 type retRec struct {
+	pos   token.Pos
 	reach string
 	vals  []*sym
 	st    *state
@@ -479,7 +480,7 @@ func (vc *FnVC) heapWF(name, sort, a string) {
 	binders := "(wr Ref)"
 	if strings.HasPrefix(inner, "(Array ") {
 		// (Array K V): slice elements and map values
-		rest := inner[len("(Array "):len(inner)-1]
+		rest := inner[len("(Array ") : len(inner)-1]
 		var k, v string
 		if strings.HasPrefix(rest, "(") {
 			return
@@ -1063,6 +1064,18 @@ func (w *World) verifyFunction(fn *ssa.Function, c *Contract) (vc *FnVC, err err
 	}
 	cov := vc.oblige("cover", "exit", "true", exitReach, fn.Pos(), "the exit of the function is reachable under its preconditions and the assumed callee contracts", c.Props)
 	cov.Trivial = false
+	if len(f.rets) > 1 {
+		// one cover per return statement: a callee contract or an invariant that contradicts what is known on one
+		// path makes everything proved on that path vacuous while the exit as a whole stays reachable
+		for i, r := range f.rets {
+			pos := r.pos
+			if !pos.IsValid() {
+				pos = fn.Pos()
+			}
+			rc := vc.oblige("cover", fmt.Sprintf("ret%d", i), "true", r.reach, pos, "this return statement is reachable under the preconditions and the assumed callee contracts", c.Props)
+			rc.Trivial = false
+		}
+	}
 	// site expectations
 	for _, ex := range c.Expect {
 		n := vc.callsSeen[ex.Callee]
